@@ -52,3 +52,47 @@ def accepted_set(dnf, var, domain):
             if ok:
                 acc.add(x); break
     return acc, sorted(unknown)
+
+
+def eval_arith(term, n):
+    """value of an arithmetic term over ONE unknown: every `len(...)` sub-term (any argument) is taken as n.  Supports the MIR operator terms
+    mul/add/sub/div (+ withoverflow(...).0 forms), div_ceil, next_multiple_of, integer literals.  Returns None when the term has another shape."""
+    s = term.strip()
+    s = re.sub(r'\.0$', '', s) if re.match(r'^(mul|add|sub)withoverflow\(', s) else s
+    if re.fullmatch(r'\d+', s):
+        return int(s)
+    m = re.match(r'^([A-Za-z_:]+)\((.*)\)$', s)
+    if not m:
+        return None
+    f, args = m.group(1), m.group(2)
+    fshort = f.split('::')[-1]
+    if fshort == 'len':
+        return n
+    parts, depth, cur = [], 0, ''
+    for ch in args:
+        if ch in '([{':
+            depth += 1
+        elif ch in ')]}':
+            depth -= 1
+        if ch == ',' and depth == 0:
+            parts.append(cur); cur = ''
+        else:
+            cur += ch
+    parts.append(cur)
+    vals = [eval_arith(p, n) for p in parts]
+    if any(v is None for v in vals) or len(vals) != 2:
+        return None
+    a, b = vals
+    if fshort in ('mul', 'mulwithoverflow', 'saturating_mul', 'wrapping_mul'):
+        return a * b
+    if fshort in ('add', 'addwithoverflow', 'saturating_add', 'wrapping_add'):
+        return a + b
+    if fshort in ('sub', 'subwithoverflow', 'saturating_sub'):
+        return max(a - b, 0)
+    if fshort == 'div':
+        return a // b if b else None
+    if fshort == 'div_ceil':
+        return -(-a // b) if b else None
+    if fshort == 'next_multiple_of':
+        return -(-a // b) * b if b else None
+    return None
